@@ -19,7 +19,7 @@ from .values import Closure, HList, SeqIter, St, Unsupported, V, const, new_id
 
 class Obl:
     __slots__ = ("name", "clause", "pc", "goal", "kind", "path", "st", "status", "time", "backend", "model", "props",
-                 "note")
+                 "note", "smt2")
 
     def __init__(self, name, clause, pc, goal, kind, path, st):
         self.name = name
@@ -35,6 +35,7 @@ class Obl:
         self.model = None
         self.props = None
         self.note = ""
+        self.smt2 = None
 
 
 class UnitReport:
@@ -158,15 +159,83 @@ def make_param(interp: Interp, st: St, name, kind):
     raise ValueError(f"unknown parameter kind {kind!r}")
 
 
-def solver_for(interp: Interp, timeout_ms, ground=False):
+def solver_for(interp: Interp, timeout_ms, ground=False, supers=None):
     s = z3.Solver()
     s.set("timeout", timeout_ms)
     s.set("smt.mbqi", False)     # E-matching only: satisfiable quantified queries come back `unknown` at once
+    bg = T.background(interp.reg)
     if not ground:
-        s.add(*T.background(interp.reg))
+        s.add(*bg)
         s.add(*interp.ctx.extra_axioms)
-    s.add(*interp.reg.stable_ground_facts())
+    if supers is not None:
+        supers = supers | T.sub_supers(bg)
+    s.add(*interp.reg.stable_ground_facts(supers))
     return s
+
+
+def run_cvc5(smt2_text, timeout_ms):
+    import os
+    import subprocess
+    import tempfile
+    fd, path = tempfile.mkstemp(suffix=".smt2", prefix="pyvc_")
+    try:
+        with os.fdopen(fd, "w") as fh:
+            fh.write(smt2_text)
+        try:
+            r = subprocess.run(["/usr/bin/cvc5", "--lang", "smt2", f"--tlimit={int(timeout_ms)}", path],
+                               capture_output=True, text=True, timeout=timeout_ms / 1000 + 5)
+            out = r.stdout.strip().splitlines()
+            return out[0] if out else "unknown"
+        except subprocess.TimeoutExpired:
+            return "unknown"
+        except OSError:
+            return "unknown"
+    finally:
+        try:
+            os.unlink(path)
+        except OSError:
+            pass
+
+
+def second_pass(interp, pending, ground, timeout_ms, supers):
+    """z3 left these open: cvc5 in parallel, then z3 again with the full budget, then a candidate model from the
+    ground theory (which only a native replay can turn into a violation)."""
+    if not pending:
+        return
+    from concurrent.futures import ThreadPoolExecutor
+    t1 = time.time()
+    with ThreadPoolExecutor(max_workers=min(8, len(pending))) as ex:
+        res = list(ex.map(lambda o: run_cvc5(o.smt2, max(timeout_ms, 20000)), pending))
+    still = []
+    for o, r in zip(pending, res):
+        if r == "unsat":
+            o.status, o.backend = "discharged", "cvc5"
+        else:
+            o.note = (o.note + " " if o.note else "") + f"cvc5:{r}"
+            still.append(o)
+        o.time += (time.time() - t1) / max(1, len(pending))
+    for o in still:
+        t2 = time.time()
+        s = solver_for(interp, timeout_ms, supers=supers)
+        s.set("smt.random_seed", 7)
+        s.add(*o.pc)
+        s.add(z3.Not(o.goal))
+        r = s.check()
+        if r == z3.unsat:
+            o.status, o.backend = "discharged", "z3-retry"
+        elif r == z3.sat:
+            o.status, o.backend, o.model = "failed", "z3", s.model()
+        else:
+            ground.push()
+            ground.add(*ground_only(o.pc))
+            ground.add(z3.Not(o.goal))
+            if not T.has_quantifier(o.goal) and ground.check() == z3.sat:
+                o.model = ground.model()
+                o.status, o.backend = "failed", "z3-ground"
+            ground.pop()
+        o.time += time.time() - t2
+    for o in pending:
+        o.smt2 = None
 
 
 def ground_only(fs):
@@ -309,8 +378,15 @@ def _run_instance(c, tree, mod, label, recv, rep, timeout_ms, lookup):
 
     # ---- discharge
     t_solve = time.time()
-    base = solver_for(interp, timeout_ms)
-    ground = solver_for(interp, timeout_ms, ground=True)
+    allf = []
+    for o in obls:
+        allf.extend(o.pc)
+        allf.append(o.goal)
+    supers = T.sub_supers(allf)
+    z3_first = min(timeout_ms, 4000)
+    base = solver_for(interp, z3_first, supers=supers)
+    ground = solver_for(interp, timeout_ms, ground=True, supers=supers)
+    pending = []
     for o in obls:
         o.props = c.props_of(o.clause)
         g = z3.simplify(o.goal)
@@ -329,8 +405,10 @@ def _run_instance(c, tree, mod, label, recv, rep, timeout_ms, lookup):
                 o.model = base.model()
             else:
                 o.status, o.backend = "unknown", "z3:" + base.reason_unknown()
+                o.smt2 = base.to_smt2()
+                pending.append(o)
             base.pop()
-            if o.status == "unknown":
+            if False:
                 # candidate counter-model in the ground theory (weaker: quantified facts dropped); only a native
                 # replay can turn it into a violation
                 ground.push()
@@ -341,6 +419,7 @@ def _run_instance(c, tree, mod, label, recv, rep, timeout_ms, lookup):
                     o.status, o.backend = "failed", "z3-ground"
                 ground.pop()
         o.time = time.time() - t1
+    second_pass(interp, pending, ground, timeout_ms, supers)
     for cv, alts in cover_goals:
         ok = False
         for s1, g in alts:
